@@ -34,7 +34,7 @@ func init() {
 
 // Per-slot alphabet. Slot k (1..3) of hostname H is either
 //
-//	.  empty                                   x  lookup (Get) error            u  undecodable value
+//	.  empty (nil value)   z  empty (zero-length non-nil value, nil error)   x  lookup (Get) error   u  undecodable value
 //
 // or holds a route for client Ck through the local node A with dial outcome
 //
@@ -47,8 +47,8 @@ func init() {
 //	i  A cannot dial Bk (generic error)        j  A cannot dial Bk (ErrNoDirect)
 //	k  sending the route to Bk fails           l  Bk side closes before any status (EOF)
 //	m  status OK, then writing the Link fails
-const c27Quick = ".xabcdefghijklm"
-const c27Thorough = ".xuabcdefghijklm"
+const c27Quick = ".zxabcdefghijklm"
+const c27Thorough = ".zxuabcdefghijklm"
 
 const (
 	c27Local  = "abcd"
@@ -346,6 +346,9 @@ func (w *c27World) prepare(cs c27Case) c27Prep {
 		switch {
 		case s == '.':
 			nEmpty++
+		case s == 'z':
+			nEmpty++
+			over[key+"#empty"] = true
 		case s == 'x':
 			nErr++
 			over[key] = true
@@ -384,6 +387,9 @@ func (w *c27World) attempt(cs c27Case, p c27Prep, dialCtx context.Context, onGet
 	w.kv.getHook = func(key string) ([]byte, error, bool) {
 		if onGet != nil {
 			onGet(key)
+		}
+		if over[key+"#empty"] {
+			return []byte{}, nil, true
 		}
 		if over[key] {
 			return nil, errors.New("kv: injected failure"), true
